@@ -123,7 +123,7 @@ def run_stream(harness, prop, tier, seed, extra_args=()):
     cases = BUILD / f"cases_{tag}.jsonl"
     model = BUILD / f"model_{tag}.jsonl"
     r = subprocess.run([str(harness), "gen", "-prop", prop, "-tier", tier, "-seed", str(seed), "-out", str(cases)] + list(extra_args),
-                       stdout=subprocess.PIPE, stderr=subprocess.PIPE, text=True, timeout=7200,
+                       stdout=subprocess.PIPE, stderr=subprocess.PIPE, text=True, timeout=(1800 if tier != 'thorough' else 7200),
                        env=dict(os.environ, GORACE="halt_on_error=0"))
     LAST_HARNESS_STDERR = r.stderr or ""
     if r.returncode != 0 and "DATA RACE" not in LAST_HARNESS_STDERR:
